@@ -116,4 +116,67 @@ theorem created_anytime_tracks_latest (ops : List Reg.Op) (s : Reg.S) (h : Reg.r
 example : (Reg.run Generated.regShape Reg.init [.update 1, .regBegin 7, .update 2, .regBegin 8]).map
     (fun s => (s.cache, s.handlers, s.applied 7, s.applied 8)) = some (some 2, [7, 8], some 2, some 2) := by decide
 
+/-! ## Updates and the server's installation of its updater, in any order (added in the last session) -/
+
+inductive LOp
+  | upd (u : Option Chains)
+  | install
+
+def lstep (port : Nat) (s : LimitSt) : LOp → LimitSt
+  | .upd u => limitApply port s u
+  | .install => limitInstall s
+
+/-- what the running server's limiter was told last is the limit in force -/
+def Synced (s : LimitSt) : Prop := s.hasUpdater = true → s.pushed.getLast? = some (s.qps.getD (some 0))
+
+theorem lstep_synced (port : Nat) (s : LimitSt) (o : LOp) (h : Synced s) : Synced (lstep port s o) := by
+  cases o with
+  | upd u =>
+    intro hu
+    have hu' : s.hasUpdater = true := by simpa [lstep, limitApply] using hu
+    simp [lstep, limitApply, hu']
+  | install =>
+    intro _
+    simp [lstep, limitInstall]
+
+/-- **for every interleaving of listener updates and installations of the server's updater** (before the first update,
+between two, after the last; more than once), as soon as the server has an updater the value it was given last is the limit
+the latest inbound listener gives — the server is never left with a stale limit -/
+theorem server_never_stale (port : Nat) (ops : List LOp) :
+    Synced (ops.foldl (lstep port) limitInit) := by
+  have : ∀ (s : LimitSt), Synced s → Synced (ops.foldl (lstep port) s) := by
+    induction ops with
+    | nil => intro s h; exact h
+    | cons o os ih => intro s h; exact ih _ (lstep_synced port s o h)
+  exact this limitInit (by intro h; cases h)
+
+/-- and that limit is the latest update's: after `… upd u` followed by any number of installations the server holds `limitOf port u` -/
+theorem server_holds_latest (port : Nat) (ops : List LOp) (u : Option Chains) (k : Nat) :
+    let s := (List.replicate (k + 1) LOp.install).foldl (lstep port) ((ops ++ [LOp.upd u]).foldl (lstep port) limitInit)
+    s.pushed.getLast? = some (limitOf port u) := by
+  intro s
+  have hq : ∀ (n : Nat) (t : LimitSt), ((List.replicate n LOp.install).foldl (lstep port) t).qps = t.qps := by
+    intro n
+    induction n with
+    | zero => intro t; rfl
+    | succ n ih => intro t; simp only [List.replicate_succ, List.foldl_cons]; rw [ih]; rfl
+  have hu : ∀ (n : Nat) (t : LimitSt), ((List.replicate (n + 1) LOp.install).foldl (lstep port) t).hasUpdater = true := by
+    intro n
+    induction n with
+    | zero => intro t; rfl
+    | succ n ih => intro t; rw [List.replicate_succ, List.foldl_cons]; exact ih _
+  have hsync : Synced s := by
+    have := server_never_stale port ((ops ++ [LOp.upd u]) ++ List.replicate (k + 1) LOp.install)
+    simpa [s, List.foldl_append] using this
+  have h1 := hsync (hu k _)
+  rw [h1]
+  have : s.qps = some (limitOf port u) := by
+    show ((List.replicate (k + 1) LOp.install).foldl (lstep port) _).qps = _
+    rw [hq]
+    simp [List.foldl_append, lstep, limitApply]
+  rw [this]; rfl
+
+example : ((([LOp.upd (some [(8080, some 5)]), .install, .upd (some [(8080, some 9)]), .install, .upd none] : List LOp).foldl
+    (lstep 8080) limitInit).pushed) = [some 5, some 9, some 9, none] := by decide
+
 end XdsVerif.Properties.C18
